@@ -28,6 +28,7 @@ class Sched:
         self.schedule = list(schedule or [])
         self.pos = 0
         self.gates = []          # [label, future]
+        self._open = []          # the gates that are not done yet, in creation order
         self.actions = {}        # name -> (enabled_fn, do_fn)  harness actions
         self.trace = []          # labels of actions taken, in order
         self.varied = 0          # decisions that had >= 2 alternatives
@@ -47,11 +48,15 @@ class Sched:
     # ---- gates -----------------------------------------------------------------------------
     def gate(self, label):
         fut = self.loop.create_future()
-        self.gates.append([label, fut])
+        g = [label, fut]
+        self.gates.append(g)
+        self._open.append(g)
         return fut
 
     def pending_gates(self):
-        return [g for g in self.gates if not g[1].done()]
+        # creation order; done gates are dropped so that a tick costs O(open gates), not O(all gates ever)
+        self._open = [g for g in self._open if not g[1].done()]
+        return self._open
 
     def add_action(self, name, enabled, do):
         self.actions[name] = (enabled, do)
@@ -84,9 +89,10 @@ class Sched:
             self.loop.stop()
             return
         self.steps += 1
-        enabled = [("gate", g) for g in self.pending_gates()]
-        enabled += [("action", name) for name, (en, _do) in self.actions.items() if en()]
-        if not enabled:
+        open_gates = self.pending_gates()
+        actions = [name for name, (en, _do) in self.actions.items() if en()]
+        n_enabled = len(open_gates) + len(actions)
+        if not n_enabled:
             self.hang = True
             self.loop.stop()
             return
@@ -94,11 +100,13 @@ class Sched:
             self.step_limit = True
             self.loop.stop()
             return
-        kind, x = enabled[self._next(len(enabled))]
-        if kind == "gate":
+        i = self._next(n_enabled)  # gates in creation order, then the harness actions
+        if i < len(open_gates):
+            x = open_gates[i]
             self.trace.append("release:" + str(x[0]))
             x[1].set_result(None)
         else:
+            x = actions[i - len(open_gates)]
             self.trace.append("action:" + x)
             self.actions[x][1]()
         self.loop.call_soon(self._tick)
